@@ -1,0 +1,8 @@
+// SPDX-FileCopyrightText: (C) 2024 Intel Corporation
+// SPDX-License-Identifier: Apache 2.0
+
+//go:build !verif
+
+package fdo
+
+func simYield(string) {}
